@@ -57,6 +57,7 @@ type Config struct {
 	MaxSteps   int  // instructions per path
 	MapReverse bool // iterate builtin maps in reverse insertion order
 	RunInit    map[string]bool
+	SkipUserInits bool // do not run user-written init() functions (environment set-up)
 	RecursionFails string // obligation id violated when the recursion bound is exceeded
 }
 
@@ -83,6 +84,7 @@ type Exec struct {
 	sched     *scheduler
 	nextIsDeferred bool
 	hugeNext  bool
+	intrinsicFn *ssa.Function // the (instantiated) function an intrinsic stands for
 	initStores map[*ssa.Package]map[*ssa.Global]bool
 	initOrder  []*ssa.Package // packages whose init was triggered lazily (cumulative over paths)
 	initSeen   map[*ssa.Package]bool
@@ -285,6 +287,7 @@ func (x *Exec) call(caller *frame, fn *ssa.Function, args []Value, bindings []Va
 	isDef := x.nextIsDeferred
 	x.nextIsDeferred = false
 	if in, ok := x.Intrinsic[name]; ok {
+		x.intrinsicFn = fn
 		return in(x, caller, args, nil)
 	}
 	if fn.Name() == "init" && fn.Pkg != nil && fn.Signature.Recv() == nil && fn.Synthetic != "" {
@@ -297,6 +300,10 @@ func (x *Exec) call(caller *frame, fn *ssa.Function, args []Value, bindings []Va
 	}
 	if strings.HasPrefix(fn.Name(), "nd_") {
 		return x.ndCall(caller, fn, args)
+	}
+	if x.Cfg.SkipUserInits && strings.HasPrefix(fn.Name(), "init#") && fn.Signature.Recv() == nil {
+		x.Stubs["user init functions of "+fn.Pkg.Pkg.Path()+" skipped (environment set-up)"] = true
+		return nil
 	}
 	if x.Extern != nil && len(fn.Blocks) == 0 {
 		if v, ok := x.Extern(x, name, fn, args); ok {
